@@ -44,12 +44,22 @@ def main() -> int:
         spark.stop()
         return 0
     cases = K.all_cases()
-    res = K.evaluate(F, lambda rows, schema: spark.createDataFrame(rows, schema), cases)
+    if "--update" in sys.argv:
+        # keep the recorded value of every case that is unchanged (same id, same content); evaluate the others
+        old = {c["id"]: c for c in json.load(open(os.path.join(HERE, "spark_values.json")))["cases"]}
+        todo = [i for i, c in enumerate(cases) if c["id"] not in old or K.case_key(old[c["id"]]) != K.case_key(c)]
+        fresh = K.evaluate(F, lambda rows, schema: spark.createDataFrame(rows, schema), [cases[i] for i in todo])
+        res = [old[c["id"]]["spark"] if c["id"] in old else None for c in cases]
+        for i, r in zip(todo, fresh):
+            res[i] = r
+        print(f"{len(todo)} cases evaluated, {len(cases) - len(todo)} kept")
+    else:
+        res = K.evaluate(F, lambda rows, schema: spark.createDataFrame(rows, schema), cases)
     out = {
         "_doc": "values returned by live PySpark for tools/props/c17_cases.all_cases(); key = case id; the case itself is stored so a stale file is detected",
         "pyspark_version": pyspark.__version__,
         "settings": {"master": "local[1]", "spark.sql.session.timeZone": "UTC", "spark.sql.ansi.enabled": spark.conf.get("spark.sql.ansi.enabled")},
-        "cases": [{"id": c["id"], "fn": c["fn"], "args": c["args"], "pre": c.get("pre"), "post": c.get("post"), "group": c["group"], "spark": r} for c, r in zip(cases, res)],
+        "cases": [dict({"id": c["id"], "fn": c["fn"], "args": c["args"], "pre": c.get("pre"), "post": c.get("post"), "group": c["group"], "spark": r}, **{k: c[k] for k in ("xargs", "prog", "rows") if k in c}) for c, r in zip(cases, res)],
     }
     with open(os.path.join(HERE, "spark_values.json"), "w") as f:
         json.dump(out, f, indent=0, sort_keys=True)
